@@ -9,6 +9,9 @@
 (*   <<"fn", f, a>>  (log exp sqrt logistic abs normal_cdf normal_pdf)     *)
 (*   <<"fn2", f, a, b>>  (maximum, minimum)                                *)
 (*   <<"ifge", a, b, u, v>>  = u if a >= b else v  (appears in derivatives)*)
+(*   <<"ufn", f, a, b>>  user (context) functions, known to the spec by     *)
+(*       their definition: blend(u, v) = 3/4 u + 1/4 v, prodsq(u, v) = u u v *)
+(*       (irispie differentiates them by two-sided finite differences)     *)
 (* D(e, w) is the derivative tree of e with respect to the occurrence      *)
 (* w = <<name, shift>> by the textbook rules.  On the rational fragment    *)
 (* (no "fn") trees are evaluated exactly and TLC checks Inv_RulesAgree:    *)
@@ -54,12 +57,15 @@ D(e, w) ==
       [] e[1] = "fn2" -> IF e[2] = "maximum" THEN <<"ifge", e[3], e[4], D(e[3], w), D(e[4], w)>>
                          ELSE <<"ifge", e[4], e[3], D(e[3], w), D(e[4], w)>>
       [] e[1] = "ifge" -> <<"ifge", e[2], e[3], D(e[4], w), D(e[5], w)>>
+      [] e[1] = "ufn" -> IF e[2] = "blend" THEN Add(Mul(Num(Q(3, 4)), D(e[3], w)), Mul(Num(Q(1, 4)), D(e[4], w)))
+                         ELSE Add(Mul(<<"mul", <<"mul", Num(R(2)), e[3]>>, e[4]>>, D(e[3], w)), Mul(<<"mul", e[3], e[3]>>, D(e[4], w)))
 
 RECURSIVE Rational(_)
 Rational(e) == \* the fragment evaluated exactly: no functions, integer constant exponents
     CASE e[1] \in {"num", "par", "var"} -> TRUE
       [] e[1] = "neg" -> Rational(e[2])
       [] e[1] \in {"add", "sub", "mul", "div"} -> Rational(e[2]) /\ Rational(e[3])
+      [] e[1] = "ufn" -> Rational(e[3]) /\ Rational(e[4])
       [] e[1] = "pow" -> Rational(e[2]) /\ e[3][1] = "num" /\ e[3][2][2] = 1 /\ e[3][2][1] \in 0..3
       [] OTHER -> FALSE
 
@@ -77,6 +83,8 @@ Val(e, env) ==
       [] e[1] = "mul" -> RMul(Val(e[2], env), Val(e[3], env))
       [] e[1] = "div" -> RDiv(Val(e[2], env), Val(e[3], env))
       [] e[1] = "pow" -> LET n == Val(e[3], env) IN IF n[1] >= 0 THEN RPow(Val(e[2], env), n[1]) ELSE RInv(RPow(Val(e[2], env), -n[1]))
+      [] e[1] = "ufn" -> IF e[2] = "blend" THEN RAdd(RMul(Q(3, 4), Val(e[3], env)), RMul(Q(1, 4), Val(e[4], env)))
+                         ELSE RMul(RMul(Val(e[3], env), Val(e[3], env)), Val(e[4], env))
       [] e[1] = "fn"  -> RZero     \* only reached as  (...) * 0  : the log term of a constant exponent
 \* forward-mode dual numbers <<value, derivative>>: an independent formulation of the same derivative
 RECURSIVE Dual(_, _, _)
@@ -90,6 +98,10 @@ Dual(e, env, w) ==
       [] e[1] = "mul" -> LET a == Dual(e[2], env, w) b == Dual(e[3], env, w) IN <<RMul(a[1], b[1]), RAdd(RMul(a[2], b[1]), RMul(a[1], b[2]))>>
       [] e[1] = "div" -> LET a == Dual(e[2], env, w) b == Dual(e[3], env, w) q == RDiv(a[1], b[1]) IN
                          <<q, RDiv(RSub(a[2], RMul(q, b[2])), b[1])>>
+      [] e[1] = "ufn" -> LET a == Dual(e[3], env, w) b == Dual(e[4], env, w) IN
+                         IF e[2] = "blend" THEN <<RAdd(RMul(Q(3, 4), a[1]), RMul(Q(1, 4), b[1])), RAdd(RMul(Q(3, 4), a[2]), RMul(Q(1, 4), b[2]))>>
+                         ELSE <<RMul(RMul(a[1], a[1]), b[1]),      \* (a a) b by the product rule on dual numbers
+                                RAdd(RMul(RAdd(RMul(a[2], a[1]), RMul(a[1], a[2])), b[1]), RMul(RMul(a[1], a[1]), b[2]))>>
       [] e[1] = "pow" -> LET a == Dual(e[2], env, w) n == e[3][2][1] IN       \* repeated multiplication of dual numbers
                          IF n = 0 THEN <<ROne, RZero>>
                          ELSE <<RPow(a[1], n), RMul(RMul(R(n), RPow(a[1], n - 1)), a[2])>>
@@ -99,6 +111,7 @@ Safe(e, env) ==
     CASE e[1] \in {"num", "par", "var"} -> TRUE
       [] e[1] = "neg" -> Safe(e[2], env)
       [] e[1] \in {"add", "sub", "mul"} -> Safe(e[2], env) /\ Safe(e[3], env)
+      [] e[1] = "ufn" -> Safe(e[3], env) /\ Safe(e[4], env)
       [] e[1] = "div" -> Safe(e[2], env) /\ Safe(e[3], env) /\ Val(e[3], env) # RZero
       [] e[1] = "pow" -> Safe(e[2], env)
       [] OTHER -> FALSE
@@ -121,4 +134,5 @@ TreeText(e) ==
       [] e[1] = "pow" -> "(" \o TreeText(e[2]) \o "^" \o TreeText(e[3]) \o ")"
       [] e[1] = "fn"  -> e[2] \o "(" \o TreeText(e[3]) \o ")"
       [] e[1] = "fn2" -> e[2] \o "(" \o TreeText(e[3]) \o "," \o TreeText(e[4]) \o ")"
+      [] e[1] = "ufn" -> e[2] \o "(" \o TreeText(e[3]) \o "," \o TreeText(e[4]) \o ")"
 =============================================================================
